@@ -146,6 +146,7 @@ def families(tier: str):
         (lambda: [[small(0)], [big(1)]], 2),
         (lambda: [[small(0), wpath.Broken(), small(2)]], 2),
         (lambda: [[small(0), wpath.broken_typed(), small(2)]], 1),
+        (lambda: [[small(0), wpath.broken_header(), small(2)]], 1),
         # application requests and watchdog messages mixed (queueing order is the only order)
         (lambda: [[wpath.make_other(0), wpath.make_other(1), small(2)]], 1),
         (lambda: [[wpath.make_other(0)], [small(1), wpath.make_other(2)]], 2),
@@ -279,7 +280,7 @@ def run(res: Result, tier: str, seed: int):
         def fam():
             per = [[] for _ in range(nthr)]
             for i in range(n):
-                m = (wpath.Broken() if rng.random() < 0.5 else wpath.broken_typed()) if rng.random() < 0.1 else \
+                m = rng.choice([wpath.Broken, wpath.Broken, wpath.broken_typed, wpath.broken_typed, wpath.broken_header])() if rng.random() < 0.1 else \
                     wpath.make_other(i) if rng.random() < 0.3 else wpath.make_message(i, rng.choice([0, 0, 10, 80]))
                 per[rng.randrange(nthr)].append(m)
             return [p for p in per if p] or [[wpath.make_message(0)]]
